@@ -10,6 +10,7 @@
 #include <yorel/yomm2/decode.hpp>
 
 #include <cstdint>
+#include <unistd.h>
 #include <cstring>
 #include <deque>
 #include <memory>
@@ -366,7 +367,8 @@ struct Config {
     const std::uintptr_t* (*vp_vptr)(void*);
     Obj* (*vp_get)(void*);
     // handler control (vectored_error / call_error): mode 0 = throw a copy,
-    // 1 = return (library must abort), 2 = library default
+    // 1 = return (library must abort), 2 = library default, 3 = a second
+    // throwing handler, 5 = marker that ends the process with status 49
     void (*set_handler_mode)(int);
     int* deliveries; // entries into this policy's own handler
     void (*decode)(DecodeData&);
@@ -563,6 +565,11 @@ struct Impl {
         ++g_error_deliveries;
     }
 
+    static void call_error_marker(
+        const method_call_error&, std::size_t, type_id*) {
+        _exit(49);
+    }
+
     static void set_handler_mode(int mode) {
         handler_mode = mode;
         if constexpr (has_call_error<Pol>::value) {
@@ -573,6 +580,7 @@ struct Impl {
                 Pol::call_error = mode == 0 ? call_error_thrower
                     : mode == 1             ? call_error_returner
                     : mode == 3             ? call_error_thrower2
+                    : mode == 5             ? call_error_marker
                                             : default_call_error;
                 return;
             }
@@ -596,6 +604,9 @@ struct Impl {
                 };
             } else if (mode == 1) {
                 Pol::error = [](const error_type&) { ++g_error_deliveries; };
+            } else if (mode == 5) {
+                // marker (forked probes): this handler must never be reached
+                Pol::error = [](const error_type&) { _exit(49); };
             } else {
                 Pol::error = default_error;
             }
